@@ -152,6 +152,15 @@ def generate(name, maxk, stride=1):
                      "macro_rules! stamp { ($t:ident, $f:ident, $g:ident, $a:ident, $ti:ident) => { %s }; } stamp!(T, f, g, a, TrImpl); }" % (hi, hi, body))
         where[len(lines)] = hi
         keys[hi] = ("hygiene",) + key
+        # second flavour: ONLY the name of the deps parameter comes from an argument (its `&`, its type and everything
+        # else from the macro body)
+        if re.search(r"\bdeps\b", item):
+            body2 = re.sub(r"\bdeps\b", "$d", item)
+            hi2 = 200000 + i
+            lines.append("#[cfg(not(skip_x%d))] pub mod x%d { use super::*; use entrait::*; "
+                         "macro_rules! stamp { ($d:ident) => { %s }; } stamp!(deps); }" % (hi2, hi2, body2))
+            where[len(lines)] = hi2
+            keys[hi2] = ("hygiene-deps",) + key
     with open(os.path.join(d, "src", "lib.rs"), "w") as f:
         f.write("\n".join(lines) + "\n")
     return d, where, keys
@@ -183,7 +192,7 @@ def load_cross(report, config, tier):
         key = "/".join(keys.get(i, ("?",)))
         dg = diags[0]
         kt = keys.get(i, ("?",))
-        if kt[0] == "hygiene":
+        if kt[0] in ("hygiene", "hygiene-deps"):
             kt = kt[1:]
         props = {"fn": {"C01", "C03", "C04"}, "mod": {"C01", "C08", "C04"}, "trait": {"C06"}, "inversion": {"C07"}}.get(kt[0], set())
         props = set(props)
@@ -198,5 +207,32 @@ def load_cross(report, config, tier):
             report.add("W-CROSS", "cross %s [%s] compile" % (key, config), msg)
         else:
             report.note("skipped (belongs to %s): %s" % (",".join(sorted(props)), msg))
+    # the same corpus under the default (stable) toolchain, the one users build with (plain configuration only)
+    if config == "plain":
+        from .facts import stable_failures
+        sf = stable_failures(d, "wit_cross", features=features, cfgs=cfgs, attribute=attribute)
+        report.count("cross_points_stable_toolchain", len(keys))
+        for mod, diags in sorted(sf.items()):
+            if mod in failures:
+                continue
+            i = int(mod[1:])
+            kt = keys.get(i, ("?",))
+            key = "/".join(kt)
+            dg = diags[0]
+            if kt[0] in ("hygiene", "hygiene-deps"):
+                kt = kt[1:]
+            props = set({"fn": {"C01", "C03", "C04"}, "mod": {"C01", "C08", "C04"}, "trait": {"C06"}, "inversion": {"C07"}}.get(kt[0], set()))
+            if any(x in kt for x in ("async", "mixed", "async_trait", "?Send")):
+                props.add("C12")
+            if "concrete" in kt:
+                props.add("C05")
+            if "mock_api = TMock" in kt:
+                props.add("C11")
+            msg = "combination %s does not expand to compiling code on the default (stable) toolchain: %s %s" % (
+                key, dg.get("code") or "", dg["message"][:150])
+            if report.prop in props:
+                report.add("W-CROSS", "cross %s [stable] compile" % key, msg)
+            else:
+                report.note("skipped (belongs to %s): %s" % (",".join(sorted(props)), msg))
     c.cross_keys = keys
     return Loaded(name, config, c, failures, wall)
